@@ -443,7 +443,7 @@ theorem lookup_none_of_not_mem (m : AclMap) (k : Str) (h : k ∉ m.map (·.1)) :
     rw [List.map_cons, List.mem_cons, not_or] at h
     rw [lookup_cons_eq, if_neg h.1, ih h.2]
 
-theorem lookup_mem {m : AclMap} {k : Str} {l : List Ace} (h : List.lookup k m = some l) : (k, l) ∈ m := by
+theorem aclLookup_mem {m : AclMap} {k : Str} {l : List Ace} (h : List.lookup k m = some l) : (k, l) ∈ m := by
   induction m with
   | nil => cases h
   | cons p m ih =>
@@ -521,7 +521,7 @@ theorem map_editG_of_fix (f : List Ace → List Ace) (m : AclMap) (l : List Ace)
   split
   · rename_i h
     have h1 : p.1 = [] := by simpa using h
-    have : p = ([], l) := eq_of_key_eq hk hp (lookup_mem hl) h1
+    have : p = ([], l) := eq_of_key_eq hk hp (aclLookup_mem hl) h1
     rw [this]
     simp only [hf, id]
   · rfl
